@@ -1,5 +1,6 @@
 (* C05 - statements end exactly at top-level semicolons; opaque regions never split.
    Only statements of theorems proved elsewhere + Print Assumptions. *)
+From SqlModel.Gen Require LexPins.   (* the scan loop, is_keyword, consume and the class-level state of sqlparse/lexer.py have the pinned shape *)
 From SqlModel Require Import Base Str PyStr Re Lexer SplitDefs Splitter SplitFacts Level Level2.
 From SqlModel.Gen Require Import CaseTabs SplitTab.
 From SqlModel.Inst Require Import Cur.
